@@ -141,9 +141,16 @@ def gen_unit(job, variant, pi, seed, n_lo, n_hi, kind):
     import yaml
     rng = random.Random(f"C02:{seed}:{job}:{variant}:{pi}:{kind}")
     n = rng.randint(n_lo, n_hi)
-    lines = [command_text(c) for c in simlib.random_plan(rng, job, variant, n, max_elapse=6000.0)]
+    # every skill of the job is used once (so that every component's reducers, and whatever accumulators they
+    # keep, take part in every unit), then a random plan generated against the validity view
+    names = [v.name for v in simlib.make_engine(job, variant).get_current_viewer()("validity")]
+    rng.shuffle(names)
+    sweep = []
+    for nme in names:
+        sweep += [command_text(simlib.op("USE", nme)), command_text(simlib.op("RESOLVE", nme))]
+    lines = sweep + [command_text(c) for c in simlib.random_plan(rng, job, variant, n, max_elapse=6000.0)]
     if kind == "baseline":
-        return {"id": f"baseline/{job}", "kind": "baseline", "job": job, "variant": variant, "lines": lines[:12],
+        return {"id": f"baseline/{job}", "kind": "baseline", "job": job, "variant": variant, "lines": lines,
                 "provider": dict(BASELINE, jobtype=job)}
     from simaple.container.environment_provider import MinimalEnvironmentProvider
     env = MinimalEnvironmentProvider(**provider_of(job, variant)).get_simulation_environment()
@@ -563,11 +570,11 @@ def main(ck: Check):
     if quick:
         specs = [(job, 0, 0, "plan") for job in JOBS] + [(job, 2, 0, "plan") for job in JOBS[:4]]
         base_jobs = [JOBS[ck.seed % len(JOBS)]]
-        plan_len = (16, 24)
+        plan_len = (10, 16)
     else:
         specs = [(job, v, pi, "plan") for job in JOBS for v in (0, 1, 2) for pi in (0, 1)]
         base_jobs = [JOBS[(ck.seed + i * 3) % len(JOBS)] for i in range(3)]
-        plan_len = (24, 40)
+        plan_len = (20, 36)
     specs += [(job, 0, 0, "baseline") for job in base_jobs]
     units = {}
     for args, u in pmap(gen_unit, [(j, v, pi, ck.seed, plan_len[0], plan_len[1], k) for j, v, pi, k in specs], 120):
@@ -756,6 +763,7 @@ def main(ck: Check):
             seq_order = [u for u in o if u != victim] + ([victim] if victim else [])
             ff = dict(f, pos=len(seq_order) - 1)
             small, g = None, None
+            attempted = victim is not None and shrinks < 3
             if victim is not None and shrinks < 3:
                 shrinks += 1
                 out2 = sub("seqrepro", cx.job("seq", seq_order, order=seq_order), hs, 600)
@@ -769,7 +777,7 @@ def main(ck: Check):
                 report("interleaving-dependence" if kind == "interleave" else "thread-dependence", f, o, hs,
                        {"threads": None if kind == "interleave" else th_jobs[k]["threads"],
                         "round": None if kind == "interleave" else th_jobs[k]["kind"],
-                        "not_reproduced_sequentially": True}, run_failures=fs)
+                        "sequential_reproduction": "failed" if attempted else "not attempted"}, run_failures=fs)
     reported.sort(key=lambda r: (next((i for i, p in enumerate(PRIORITY) if r[0][0].startswith(p)), 9),
                                  len(r[1]["order"])))
     for _key, item in reported[:8]:
